@@ -38,12 +38,14 @@ T_C06w_ForcedImmediate == (IsPoll /\ obs.prevStop[W0] = "forced") => ReplyNow \i
 T_C06w_IdleImmediate == (IsPoll /\ obs.prevStop[W0] # "none" /\ obs.prevTotal[W0] = 0 /\ obs.prevWstate[W0] # "Shutdown")
                            => ReplyNow = "true"
 T_C06w_GracefulWaits ==   \* a graceful stop with connections alive is not answered by the poll that receives it ...
-   (IsPoll /\ obs.prevStop[W0] = "graceful" /\ obs.prevTotal[W0] > 0) => ReplyNow = "none"
+   (IsPoll /\ obs.prevStop[W0] = "graceful" /\ obs.prevLive[W0] > 0) => ReplyNow = "none"
 T_C06w_GracefulNotEarly == \* ... and answered `false` only once shutdown_timeout has elapsed
    (obs.ev = "step" /\ ReplyNow = "false" /\ obs.shutdownSince[W0] >= 0)
        => obs.st.now - obs.shutdownSince[W0] >= obs.shutdownMs
 \* C01 drain: in shutdown nothing is served any more; what was queued is closed
 T_C01_NoCallInShutdown == (IsPoll /\ obs.prevWstate[W0] = "Shutdown") => \A p \in 1..Len(PE) : PE[p].t # "call"
+\* a worker that is shutting down releases what is (or gets) queued: after each of its polls its queue is empty
+T_C01_ShutdownDrainsQueue == (IsPoll /\ obs.st.wstate[W0] = "Shutdown") => obs.st.chanLen[W0] = 0
 T_C01_DrainReleases == (obs.ev = "step" /\ obs.st.wstate[W0] \in {"Done"} /\ obs.replyNow[W0] = "none") =>
    \A d \in 1..Len(obs.st.dlog) :
       LET c == obs.st.dlog[d][1] IN
